@@ -107,7 +107,7 @@ Section Denote.
   Theorem dispatch_sound : forall tbl, table_ok tbl = true -> forall t, In t tbl -> row_meaning t.
   Proof.
     intros tbl H t Ht. unfold table_ok in H.
-    apply andb_prop in H as [H _]. apply andb_prop in H as [H _].
+    apply andb_prop in H as [H _]. apply andb_prop in H as [H _]. apply andb_prop in H as [H _].
     rewrite forallb_forall in H. apply triple_ok_sound, H, Ht.
   Qed.
 
@@ -116,7 +116,7 @@ Section Denote.
     expected (t_l t) (t_r t) (t_alias t) <> None -> t_form t <> FRmatmul -> t_out t <> ONone.
   Proof.
     intros tbl H t Ht He Hf. unfold table_ok in H.
-    apply andb_prop in H as [H _]. apply andb_prop in H as [_ H].
+    apply andb_prop in H as [H _]. apply andb_prop in H as [H _]. apply andb_prop in H as [_ H].
     rewrite forallb_forall in H. specialize (H t Ht). unfold handled in H.
     destruct (expected (t_l t) (t_r t) (t_alias t)); [|congruence].
     destruct (t_form t), (t_out t); congruence.
@@ -125,7 +125,7 @@ Section Denote.
   Theorem dispatch_complete : forall tbl, table_ok tbl = true -> forall f l r,
     exists t, In t tbl /\ t_form t = f /\ t_l t = l /\ t_r t = r /\ t_alias t = false.
   Proof.
-    intros tbl H f l r. unfold table_ok in H. apply andb_prop in H as [_ H]. unfold covered in H.
+    intros tbl H f l r. unfold table_ok in H. apply andb_prop in H as [H _]. apply andb_prop in H as [_ H]. unfold covered in H.
     rewrite forallb_forall in H. assert (Hf : In f all_forms) by (destruct f; cbn; tauto).
     specialize (H f Hf). rewrite forallb_forall in H. assert (Hl : In l all_cls) by (destruct l; cbn; tauto).
     specialize (H l Hl). rewrite forallb_forall in H. assert (Hr : In r all_cls) by (destruct r; cbn; tauto).
@@ -138,4 +138,153 @@ Section Denote.
     - destruct r, (t_r t); cbn in *; congruence.
     - destruct (t_alias t); cbn in *; congruence.
   Qed.
+
+  Lemma table_ok_triple_ok : forall tbl, table_ok tbl = true -> forall t, In t tbl -> triple_ok t = true.
+  Proof.
+    intros tbl H t Ht. unfold table_ok in H.
+    apply andb_prop in H as [H _]. apply andb_prop in H as [H _]. apply andb_prop in H as [H _].
+    rewrite forallb_forall in H. exact (H t Ht).
+  Qed.
+
+  (** Only the in-place form may return the left operand object. *)
+  Lemma triple_ok_pure_fresh : forall t e c i v fl fr, triple_ok t = true ->
+    expected (t_l t) (t_r t) (t_alias t) = Some e -> t_out t = OValue c i v fl fr -> t_form t <> FImatmul -> i = IdFresh.
+  Proof.
+    intros t e c i v fl fr H He Ho Hf. unfold triple_ok in H. rewrite He, Ho in H.
+    destruct i; [exfalso|exfalso|reflexivity];
+      repeat match goal with H : _ && _ = true |- _ => apply andb_prop in H; destruct H end; try discriminate.
+    apply Hf. now apply form_eqb_eq.
+  Qed.
+
+  (** Round 4: the in-place protocol.  For an accepted table, `l @= r` on a supported pair returns a value; when the class
+      of [l] is mutable the object returned IS the left operand and its final value is the specification product (every
+      alias of the receiver sees the product); when it is frozen or a tuple the result is a new object and the receiver
+      keeps its value (no store). *)
+  Definition inplace_meaning (t : triple) : Prop :=
+    t_form t = FImatmul -> expected (t_l t) (t_r t) (t_alias t) <> None ->
+    exists c i v fl fr, t_out t = OValue c i v fl fr /\
+      i = (if mutable (t_l t) then IdL else IdFresh) /\
+      forall L R, well_kinded (kind_of (t_l t)) L -> well_kinded (kind_of (t_r t)) R -> (t_alias t = true -> R = L) ->
+        denote L R v = spec L R /\ spec L R <> None /\
+        denote L R fl = (if mutable (t_l t) then spec L R else Some L).
+
+  Theorem dispatch_inplace : forall tbl, table_ok tbl = true -> forall t, In t tbl -> inplace_meaning t.
+  Proof.
+    intros tbl H t Ht Hf He.
+    pose proof (dispatch_sound tbl H t Ht) as S.
+    pose proof (dispatch_handled tbl H t Ht He) as Hd.
+    unfold table_ok in H. apply andb_prop in H as [_ H]. rewrite forallb_forall in H. specialize (H t Ht).
+    unfold inplace_ok in H. rewrite Hf in H.
+    destruct (expected (t_l t) (t_r t) (t_alias t)) as [e|] eqn:Ee; [|congruence].
+    specialize (S e Ee).
+    destruct (t_out t) as [c i v fl fr|]; [|exfalso; apply Hd; [rewrite Hf; discriminate|reflexivity]].
+    exists c, i, v, fl, fr. split; [reflexivity|].
+    destruct S as [_ S].
+    destruct i.
+    - rewrite H. split; [reflexivity|]. intros L R HL HR Hal.
+      destruct (S L R HL HR Hal) as (N & D & _ & _ & F & _). auto.
+    - discriminate.
+    - destruct (mutable (t_l t)); [discriminate|]. split; [reflexivity|]. intros L R HL HR Hal.
+      destruct (S L R HL HR Hal) as (N & D & F & _). auto.
+  Qed.
+
+  (** The in-place variant denotes the same value as the pure one: for two rows of an accepted table that differ only in
+      the form (`@` / `@=`), both return a value, the two values are equal in the model, and with a mutable receiver the
+      receiver of `@=` ends up holding exactly the value `@` returns (while `@` leaves its receiver alone). *)
+  Theorem inplace_agrees_with_pure : forall tbl, table_ok tbl = true -> forall t1 t2, In t1 tbl -> In t2 tbl ->
+    t_form t1 = FMatmul -> t_form t2 = FImatmul -> t_l t1 = t_l t2 -> t_r t1 = t_r t2 -> t_alias t1 = t_alias t2 ->
+    expected (t_l t2) (t_r t2) (t_alias t2) <> None ->
+    exists c1 v1 fl1 fr1 c2 i2 v2 fl2 fr2,
+      t_out t1 = OValue c1 IdFresh v1 fl1 fr1 /\ t_out t2 = OValue c2 i2 v2 fl2 fr2 /\
+      i2 = (if mutable (t_l t2) then IdL else IdFresh) /\
+      forall L R, well_kinded (kind_of (t_l t2)) L -> well_kinded (kind_of (t_r t2)) R -> (t_alias t2 = true -> R = L) ->
+        denote L R v1 = denote L R v2 /\ denote L R fl1 = Some L /\
+        denote L R fl2 = (if mutable (t_l t2) then denote L R v1 else Some L).
+  Proof.
+    intros tbl H t1 t2 H1 H2 F1 F2 El Er Ea He.
+    destruct (dispatch_inplace tbl H t2 H2 F2 He) as (c2 & i2 & v2 & fl2 & fr2 & O2 & I2 & M2).
+    pose proof (dispatch_sound tbl H t1 H1) as S1.
+    assert (He1 : expected (t_l t1) (t_r t1) (t_alias t1) <> None) by (rewrite El, Er, Ea; exact He).
+    pose proof (dispatch_handled tbl H t1 H1 He1) as Hd1.
+    destruct (expected (t_l t1) (t_r t1) (t_alias t1)) as [e|] eqn:Ee; [|congruence].
+    specialize (S1 e Ee).
+    destruct (t_out t1) as [c1 i1 v1 fl1 fr1|] eqn:Eo; [|exfalso; apply Hd1; [rewrite F1; discriminate|reflexivity]].
+    destruct S1 as [_ S1].
+    assert (Hi : i1 = IdFresh).
+    { eapply triple_ok_pure_fresh; [exact (table_ok_triple_ok tbl H t1 H1)|exact Ee|exact Eo|rewrite F1; discriminate]. }
+    subst i1.
+    exists c1, v1, fl1, fr1, c2, i2, v2, fl2, fr2. split; [reflexivity|]. split; [exact O2|]. split; [exact I2|].
+    intros L R HL HR Hal.
+    destruct (M2 L R HL HR Hal) as (D2 & N2 & Fl2).
+    assert (HL1 : well_kinded (kind_of (t_l t1)) L) by (rewrite El; exact HL).
+    assert (HR1 : well_kinded (kind_of (t_r t1)) R) by (rewrite Er; exact HR).
+    assert (Hal1 : t_alias t1 = true -> R = L) by (rewrite Ea; exact Hal).
+    destruct (S1 L R HL1 HR1 Hal1) as (_ & D1 & F1' & _).
+    split; [congruence|]. split; [exact F1'|].
+    rewrite Fl2. destruct (mutable (t_l t2)); congruence.
+  Qed.
 End Denote.
+
+(** Round 4: `x @ Angle` and `x @ Matrix.from_angle(Angle)` are the SAME computation, not merely equal over the reals.
+    The terms of the table are interpreted over arbitrary carriers and arbitrary operations (in particular: triples / nonuples
+    of IEEE binary64 numbers with the float versions of from_angle, _to_angle, _mat_mul, _vec_rot, whatever they round to).
+    For an accepted table the value of the row with an Angle on the right is the value of the row with a Matrix on the right
+    evaluated at [from_angle] of the angle - for every such interpretation, hence bit for bit. *)
+Fixpoint subst_r (s t : term) : term :=
+  match t with
+  | TR => s
+  | TL => TL
+  | TUninit => TUninit
+  | TFromAngle a => TFromAngle (subst_r s a)
+  | TToAngle a => TToAngle (subst_r s a)
+  | TMatMul a b => TMatMul (subst_r s a) (subst_r s b)
+  | TMatMulSelf a => TMatMulSelf (subst_r s a)
+  | TVecRot a b => TVecRot (subst_r s a) (subst_r s b)
+  end.
+
+Lemma expected_angle_operand : forall l ra rm, kind_of ra = KA -> kind_of rm = KM ->
+  expected l ra false = option_map (subst_r (TFromAngle TR)) (expected l rm false).
+Proof. intros l ra rm Ha Hm. unfold expected. rewrite Ha, Hm. destruct (kind_of l); reflexivity. Qed.
+
+Section Generic.
+  Variables (GV GM GA : Type).
+  Variables (g_from_angle : GA -> GM) (g_to_angle : GM -> GA) (g_mat_mul : GM -> GM -> GM) (g_mat_mul_self : GM -> GM)
+            (g_vec_rot : GM -> GV -> GV).
+  Inductive gvalue := GVec (v : GV) | GMat (m : GM) | GAng (a : GA).
+
+  Fixpoint gdenote (L R : gvalue) (t : term) : option gvalue :=
+    match t with
+    | TL => Some L
+    | TR => Some R
+    | TUninit => None
+    | TFromAngle t => match gdenote L R t with Some (GAng a) => Some (GMat (g_from_angle a)) | _ => None end
+    | TToAngle t => match gdenote L R t with Some (GMat m) => Some (GAng (g_to_angle m)) | _ => None end
+    | TMatMul a b =>
+        match gdenote L R a, gdenote L R b with Some (GMat x), Some (GMat y) => Some (GMat (g_mat_mul x y)) | _, _ => None end
+    | TMatMulSelf a => match gdenote L R a with Some (GMat x) => Some (GMat (g_mat_mul_self x)) | _ => None end
+    | TVecRot v m =>
+        match gdenote L R v, gdenote L R m with Some (GVec x), Some (GMat y) => Some (GVec (g_vec_rot y x)) | _, _ => None end
+    end.
+
+  Lemma gdenote_subst_r : forall L R s x t, gdenote L R s = Some x -> gdenote L R (subst_r s t) = gdenote L x t.
+  Proof. intros L R s x t Hs. induction t; cbn; try rewrite IHt; try rewrite IHt1, IHt2; auto. Qed.
+
+  Theorem angle_operand_same_computation : forall tbl, table_ok tbl = true -> forall t1 t2, In t1 tbl -> In t2 tbl ->
+    t_form t1 = t_form t2 -> t_l t1 = t_l t2 -> kind_of (t_r t1) = KA -> kind_of (t_r t2) = KM ->
+    t_alias t1 = false -> t_alias t2 = false ->
+    forall c1 i1 v1 fl1 fr1 c2 i2 v2 fl2 fr2,
+      t_out t1 = OValue c1 i1 v1 fl1 fr1 -> t_out t2 = OValue c2 i2 v2 fl2 fr2 ->
+      forall L a, gdenote L (GAng a) v1 = gdenote L (GMat (g_from_angle a)) v2.
+  Proof.
+    intros tbl H t1 t2 H1 H2 Ef El Ka Km A1 A2 c1 i1 v1 fl1 fr1 c2 i2 v2 fl2 fr2 O1 O2 L a.
+    pose proof (table_ok_triple_ok tbl H t1 H1) as T1. pose proof (table_ok_triple_ok tbl H t2 H2) as T2.
+    unfold triple_ok in T1, T2. rewrite O1, A1 in T1. rewrite O2, A2 in T2.
+    rewrite (expected_angle_operand (t_l t1) (t_r t1) (t_r t2) Ka Km), El in T1.
+    destruct (expected (t_l t2) (t_r t2) false) as [e|] eqn:Ee; cbn [option_map] in T1.
+    - repeat match goal with H : _ && _ = true |- _ => apply andb_prop in H; destruct H end.
+      repeat match goal with H : term_eqb ?x _ = true |- _ => apply term_eqb_eq in H; try subst x end.
+      apply gdenote_subst_r. reflexivity.
+    - (* a Matrix on the right is always a supported pair *)
+      unfold expected in Ee. rewrite Km in Ee. destruct (kind_of (t_l t2)); discriminate.
+  Qed.
+End Generic.
